@@ -44,6 +44,7 @@ type Output struct {
 	Outcomes   int         `json:"distinct_outcomes"`
 	Capped     bool        `json:"capped"`
 	Hooked     bool        `json:"instrumented_build"`
+	SelfTest   string      `json:"scheduler_self_test"`
 	Violations []Violation `json:"violations"`
 	Samples    []any       `json:"samples"`
 }
@@ -178,6 +179,35 @@ func clip(s string) string {
 	return s
 }
 
+// selfTest shows that the explorer really enumerates interleavings: two threads perform an
+// unsynchronised read-modify-write on a counter with a scheduling point in between; with a
+// preemption bound of 1 the lost update must be found, with bound 0 it must not.
+func selfTest() (foundWith1 bool, foundWith0 bool, schedules int64) {
+	run := func(bound int) bool {
+		found := false
+		engine.Explore(bound, 0, nil, func(m *engine.MC) {
+			counter := 0
+			var s *sched17.Sched
+			body := func() {
+				v := counter
+				s.Yield("selftest.counter")
+				counter = v + 1
+			}
+			var yield func(string)
+			install := func(f func(string)) { yield = f }
+			_ = yield
+			s2, _ := sched17.RunPrepared(m, 100, install, []func(){body, body}, func(sc *sched17.Sched) { s = sc })
+			_ = s2
+			schedules++
+			if counter != 2 {
+				found = true
+			}
+		})
+		return found
+	}
+	return run(1), run(0), schedules
+}
+
 func runSched(tier, outPath string) {
 	runtime.GOMAXPROCS(1)
 	bound := 2
@@ -185,6 +215,12 @@ func runSched(tier, outPath string) {
 		bound = 3
 	}
 	out := &Output{Mode: "sched", Hooked: haveHook}
+	w1, w0, n := selfTest()
+	out.SelfTest = fmt.Sprintf("lost update on a shared counter: found with preemption bound 1 = %v, with bound 0 = %v (%d schedules)", w1, w0, n)
+	if !w1 || w0 {
+		fmt.Fprintln(os.Stderr, "vc17: scheduler self-test failed:", out.SelfTest)
+		os.Exit(2)
+	}
 	outcomes := map[string]bool{}
 	deadline := time.Now().Add(8 * time.Minute)
 	if tier == "thorough" {
